@@ -277,9 +277,10 @@ Proof.
     destruct (n_cb nd) as [c|]; [|exact I]. destruct (n_value nd) as [old|]; [|exact I].
     match goal with |- context [dispose_children true f n ?s3] => pose proof (Hdc n s3) as H4; destruct (dispose_children true f n s3) as [[] s4|] end;
       cbn [bind_res tQ] in *; [|exact I].
-    match goal with |- context [run_body true f c ?B] => destruct (run_body true f c B) as [new s5|] end; cbn [bind_res tQ]; [|exact I].
     assert (E4 : tracker s4 = tracker s) by (cbn in H2, H4; congruence).
-    match goal with |- context [true && negb ?b] => destruct b end; cbn [andb negb]; [|cbn; exact E4].
+    destruct (alive n s4); cbn [andb negb]; [|cbn; exact E4].
+    match goal with |- context [run_body true f c ?B] => destruct (run_body true f c B) as [new s5|] end; cbn [bind_res tQ]; [|exact I].
+    match goal with |- context [if negb ?b then _ else _] => destruct b end; cbn [andb negb]; [|cbn; exact E4].
     match goal with |- context [link true n ?t ?s6] => pose proof (link_tQ n t s6) as H7; destruct (link true n t s6) as [[] s7|] end;
       cbn [bind_res tQ] in *; [|exact I].
     destruct (alive n s7); [|exact I]. cbn in H7.
